@@ -34,6 +34,21 @@ fn arg<'a>(args: &'a [String], name: &str) -> Option<&'a str> {
 }
 
 fn run_prop(ctx: &mut Ctx) -> bool {
+    let r = run_prop_guarded(ctx);
+    // contract clause of the external unicode-linebreak crate assumed by the Lean theorems
+    let n = ops::LB7_CHECKED.load(std::sync::atomic::Ordering::Relaxed);
+    if n > 0 {
+        ctx.count_n("unicode_linebreak_LB7_contract_checked", n);
+        ctx.count_n("unicode_linebreak_opportunity_before_space_after_hard_break", ops::LB7_AFTER_HARD_BREAK.load(std::sync::atomic::Ordering::Relaxed));
+    }
+    let v: Vec<String> = ops::LB7_VIOLATIONS.lock().unwrap().drain(..).collect();
+    for m in v {
+        ctx.fail("unicode-linebreak contract: no opportunity directly before a space (UAX #14 LB7)", m, None);
+    }
+    r
+}
+
+fn run_prop_guarded(ctx: &mut Ctx) -> bool {
     // every call of the crate made for the model comparison runs under `catch_unwind`; a panic
     // that escapes anyway comes from a follow-up call of an oracle (e.g. dedent applied to its
     // own output): the stream ends there and the last queued case is reported as the input
